@@ -24,7 +24,7 @@ use rustc_middle::mir::{
     self, AggregateKind, AssertKind, BinOp, Body, BorrowKind, Const, ConstValue, Operand, Place,
     ProjectionElem, Rvalue, StatementKind, TerminatorKind,
 };
-use rustc_middle::ty::print::with_no_trimmed_paths;
+use rustc_middle::ty::print::{with_crate_prefix, with_no_trimmed_paths};
 use rustc_middle::ty::{self, Instance, Ty, TyCtxt, TypingEnv};
 use rustc_span::Span;
 
@@ -48,9 +48,10 @@ impl rustc_driver::Callbacks for Cb {
         if tcx.sess.opts.test {
             return Compilation::Continue;
         }
-        let facts = with_no_trimmed_paths!(export(tcx, &krate));
-        let mut s = String::with_capacity(1 << 22);
-        facts.write(&mut s);
+        let facts = with_crate_prefix!(with_no_trimmed_paths!(export(tcx, &krate)));
+        let mut s0 = String::with_capacity(1 << 22);
+        facts.write(&mut s0);
+        let s = qualify_crate(&s0, &krate);
         let _ = std::fs::create_dir_all(&out);
         let tmp = format!("{}/{}.json.tmp{}", out, krate, std::process::id());
         let fin = format!("{}/{}.json", out, krate);
@@ -58,6 +59,31 @@ impl rustc_driver::Callbacks for Cb {
         std::fs::rename(&tmp, &fin).expect("rename facts");
         Compilation::Continue
     }
+}
+
+/// Replace every path-initial `crate::` (as printed under with_crate_prefix!) by `<krate>::`.
+fn qualify_crate(s: &str, krate: &str) -> String {
+    let b = s.as_bytes();
+    let pat = b"crate::";
+    let mut out = String::with_capacity(s.len() + s.len() / 8);
+    let mut i = 0;
+    let mut last = 0;
+    while i + pat.len() <= b.len() {
+        if &b[i..i + pat.len()] == pat {
+            let prev = if i == 0 { b' ' } else { b[i - 1] };
+            if !(prev == b'$' || prev == b'_' || prev.is_ascii_alphanumeric()) {
+                out.push_str(&s[last..i]);
+                out.push_str(krate);
+                out.push_str("::");
+                i += pat.len();
+                last = i;
+                continue;
+            }
+        }
+        i += 1;
+    }
+    out.push_str(&s[last..]);
+    out
 }
 
 fn main() {
@@ -78,20 +104,10 @@ struct Cx<'tcx> {
 
 impl<'tcx> Cx<'tcx> {
     fn path(&self, did: DefId) -> String {
-        let s = self.tcx.def_path_str(did);
-        if did.is_local() {
-            format!("{}::{}", self.krate, s)
-        } else {
-            s
-        }
+        self.tcx.def_path_str(did)
     }
     fn path_args(&self, did: DefId, args: ty::GenericArgsRef<'tcx>) -> String {
-        let s = self.tcx.def_path_str_with_args(did, args);
-        if did.is_local() {
-            format!("{}::{}", self.krate, s)
-        } else {
-            s
-        }
+        self.tcx.def_path_str_with_args(did, args)
     }
     fn span(&self, sp: Span) -> J {
         let sm = self.tcx.sess.source_map();
